@@ -311,6 +311,13 @@ func (s *Scheme) runDKG(ctx context.Context, membership *membership, dkgProtocol
 		}
 
 		s.lock.Lock()
+		// Our caller removes the handlers of this session once the context is done,
+		// register nothing that would outlive that cleanup.
+		if err := ctx.Err(); err != nil {
+			s.lock.Unlock()
+			resultChan <- mpcResult{err: err}
+			return
+		}
 		_, rbcExisted := s.rbcInProgress[string(dkgTopicHash)]
 		s.rbcInProgress[string(dkgTopicHash)] = rbc.Receive
 		s.lock.Unlock()
@@ -485,7 +492,7 @@ func (s *Scheme) Sign(c context.Context, msgHash []byte, topic string) ([]byte, 
 
 		start2 := time.Now()
 
-		signingProtocol, err := s.prepareSigning(membership, partyIDs, topicHash, UIntsToUniversalIDs(signers))
+		signingProtocol, err := s.prepareSigning(ctx, membership, partyIDs, topicHash, UIntsToUniversalIDs(signers))
 		if err != nil {
 			s.Logger.Errorf("Failed initializing signing instance: %v", err)
 			resultChan <- struct {
@@ -605,7 +612,7 @@ func (s *Scheme) initializeSyncForSigning(topic string, topicHash []byte, member
 	return sync, nil
 }
 
-func (s *Scheme) prepareSigning(membership *membership, parties []PartyID, topicHash []byte, signers []UniversalID) (Signer, error) {
+func (s *Scheme) prepareSigning(ctx context.Context, membership *membership, parties []PartyID, topicHash []byte, signers []UniversalID) (Signer, error) {
 	signingProtocol, err := s.initializeThresholdSigning(membership, parties, topicHash, signers)
 	if err != nil {
 		return nil, err
@@ -629,6 +636,13 @@ func (s *Scheme) prepareSigning(membership *membership, parties []PartyID, topic
 	}
 
 	s.lock.Lock()
+
+	// Sign removes the handlers of this session once the context is done,
+	// register nothing that would outlive that cleanup.
+	if err := ctx.Err(); err != nil {
+		s.lock.Unlock()
+		return nil, err
+	}
 
 	_, rbcExisted := s.rbcInProgress[string(topicHash)]
 	s.rbcInProgress[string(topicHash)] = rbc.Receive
